@@ -136,6 +136,15 @@ def oracle_cli(ctx, tmp, s, enc, flags, use_stdin, use_outfile):
         # text-mode writing translates nothing on Linux
     else:
         got = p.stdout.decode(enc)
+    if got != want and not use_outfile:
+        # sys.stdout itself is part of the runtime, not of sqlparse: CPython's text layer on a pipe may treat a leading U+FEFF specially for
+        # BOM-writing codecs (utf-16/utf-32).  The reference is therefore a plain interpreter writing the expected text to ITS stdout under
+        # the same PYTHONIOENCODING: the CLI must produce exactly those bytes.
+        ref = subprocess.run([PY, '-c', 'import sys; sys.stdout.write(%r); sys.stdout.flush()' % want], stdout=subprocess.PIPE, stderr=subprocess.PIPE,
+                             env=env, cwd=tmp, timeout=60)
+        if ref.returncode == 0 and ref.stdout == p.stdout:
+            ctx.count('cli:stdout-codec-artefact')
+            return
     if got != want:
         ctx.fail('sqlformat output differs from format()', s, observed=got[:300], required=want[:300], flags=flags, encoding=enc,
                  channel=('stdin' if use_stdin else 'file') + '->' + ('outfile' if use_outfile else 'stdout'))
